@@ -903,5 +903,126 @@ def rule_multpair(ctx):
                         lambda i: True, 2)
 
 
-RULES = [rule_copy, rule_alias, rule_track, rule_staleread, rule_pre, rule_presource, rule_whole,
+def rule_arith(ctx):
+    """'Tracked costs equal a rebuild after any sequence of mutations' needs every in-place delta of
+    `remove_ind` to be the difference the definitions give: slicing an index of dimension d that a step
+    involves divides the step's flops by d, and divides its size by d iff the index is on the step's result.
+    The branch is evaluated symbolically (sa/engine/symbolic.py) for one abstract step (size S, flops F)."""
+    from ..engine.symbolic import Interp, Poly
+
+    r = RuleResult("C04-ARITH", "in-place deltas of remove_ind are the definitional differences", 3)
+    tc = tree_class(ctx)
+    f = tc.lookup("remove_ind")
+    C.require(f is not None, "remove_ind not found")
+    loops = [n for n in f.node.body if isinstance(n, ast.For) and "info" in C.unparse(n.iter)]
+    C.require(len(loops) == 1, "remove_ind: loop over the nodes not found")
+    lp = loops[0]
+    # the non-leaf branch
+    leaf_if = [n for n in lp.body if isinstance(n, ast.If) and "len(" in C.unparse(n.test)]
+    C.require(leaf_if, "remove_ind: leaf / intermediate branches not found")
+    t = leaf_if[0].test
+    leaf_first = isinstance(t, ast.Compare) and isinstance(t.ops[0], ast.Eq)
+    body = leaf_if[0].orelse if leaf_first else leaf_if[0].body
+    recv = [a.arg for a in f.node.args.args][0]
+    tree = "tree"
+    for n in f.node.body:
+        if isinstance(n, ast.Assign) and isinstance(n.value, ast.IfExp) and isinstance(n.targets[0], ast.Name):
+            tree = n.targets[0].id
+    ind = f.node.args.args[1].arg
+    S, F, d = Poly.sym("S"), Poly.sym("F"), Poly.sym("d")
+    env = {f"{tree}.size_dict[{ind}]": d}
+    for n in f.node.body:
+        if isinstance(n, ast.Assign) and isinstance(n.targets[0], ast.Name) and \
+                C.unparse(n.value) == f"{tree}.size_dict[{ind}]":
+            env[n.targets[0].id] = d
+    nodevar = [x.id for x in ast.walk(lp.target) if isinstance(x, ast.Name)][0]
+    env[f"{tree}.get_flops({nodevar})"] = F
+    env[f"{tree}.get_size({nodevar})"] = S
+    it = Interp(env=env)
+    effects = it.run(body)
+    involved_name = legs_name = None
+    for n in ast.walk(ast.Module(body=body, type_ignores=[])):
+        if isinstance(n, ast.Assign) and isinstance(n.targets[0], ast.Name) and isinstance(n.value, ast.Call) \
+                and isinstance(n.value.func, ast.Attribute):
+            if n.value.func.attr == "get_involved":
+                involved_name = n.targets[0].id
+            elif n.value.func.attr == "get_legs":
+                legs_name = n.targets[0].id
+    C.require(involved_name and legs_name, "remove_ind: involved / legs of the node not found")
+    skip = (f"{ind} not in {involved_name}", False)
+    on_res = (f"{ind} in {legs_name}", True)
+
+    def sel(kind, frag, need=(), forbid=()):
+        return [e for e in effects if e.kind == kind and frag in e.target and all(c in e.conds for c in need)
+                and not any(c in e.conds for c in forbid)]
+
+    def minus(e, base):
+        v = e.expr
+        return isinstance(v, ast.Call) and C.call_name(v) == "legs_without" and len(v.args) == 2 and \
+            dotted(v.args[0]) == base and dotted(v.args[1]) == ind
+
+    # flops
+    key = ctx.key(f, "C04-ARITH", "flops")
+    probs = []
+    untouched = [e for e in effects if (f"{ind} not in {involved_name}", True) in e.conds]
+    if untouched:
+        probs.append(f"a step that does not involve the index is changed (`{C.unparse(untouched[0].node, 50)}`)")
+    st = sel("store", "['flops']", need=[skip])
+    if not st or any(e.value != F.div(d) for e in st):
+        probs.append(f"the cached flops of an affected step do not become F/d ({[e.value for e in st][:1]})")
+    dl = sel("aug", "._flops", need=[skip])
+    if not dl or any(e.delta != F.div(d) - F for e in dl):
+        probs.append(f"the running flops total does not move by F/d - F ({[e.delta for e in dl][:1]})")
+    inv = sel("store", "['involved']", need=[skip])
+    if not inv or not all(minus(e, involved_name) for e in inv):
+        probs.append("the cached involved indices do not become the old ones without the index")
+    if any(on_res in e.conds for e in st + dl + inv) and not all(on_res in e.conds or (on_res[0], False) in e.conds for e in st + dl + inv):
+        probs.append("the flops update depends on whether the index is on the result")
+    if probs:
+        r.violation(key, C.loc(f, lp), "; ".join(probs))
+    else:
+        r.ok(key, C.loc(f, lp), "affected step: flops -> F/d, total += F/d - F, involved loses the index; others untouched")
+    # size / write
+    key = ctx.key(f, "C04-ARITH", "size")
+    probs = []
+    off = [e for e in effects if (on_res[0], False) in e.conds and
+           any(k_ in e.target for k_ in ("['size']", "['legs']", "._write", "._sizes"))]
+    if off:
+        probs.append("size figures change although the index is summed at this step")
+    st = sel("store", "['size']", need=[on_res])
+    if len(st) != 1 or st[0].value != S.div(d):
+        probs.append(f"the cached size does not become S/d exactly when the index is on the result ({[e.value for e in st][:1]})")
+    dl = sel("aug", "._write", need=[on_res])
+    if len(dl) != 1 or dl[0].delta != S.div(d) - S:
+        probs.append(f"the running write total does not move by S/d - S ({[e.delta for e in dl][:1]})")
+    dis = sel("call", "._sizes.discard", need=[on_res])
+    add = sel("call", "._sizes.add", need=[on_res])
+    if len(dis) != 1 or dis[0].value != (S,):
+        probs.append("the old size is not struck off the size multiset")
+    if len(add) != 1 or add[0].value != (S.div(d),):
+        probs.append("S/d is not entered into the size multiset")
+    lg = sel("store", "['legs']", need=[on_res])
+    if len(lg) != 1 or not minus(lg[0], legs_name):
+        probs.append("the cached legs do not become the old ones without the index")
+    if probs:
+        r.violation(key, C.loc(f, lp), "; ".join(probs))
+    else:
+        r.ok(key, C.loc(f, lp), "index on the result: size -> S/d, write += S/d - S, multiset S -> S/d, legs lose the index; otherwise untouched")
+    # multiplicity
+    key = ctx.key(f, "C04-ARITH", "multiplicity")
+    top = Interp(env=dict(env, **{f"{tree}.multiplicity": Poly.sym("M")})).run(
+        [n for n in f.node.body if n is not lp and not isinstance(n, ast.For)])
+    ms = [e for e in top if (e.kind in ("store", "aug")) and e.target == f"{tree}.multiplicity"]
+    M = Poly.sym("M")
+    good = [e for e in ms if (e.kind == "store" and e.value == M * d) or (e.kind == "aug" and e.op == "Mult" and e.value == d)]
+    slicing = [e for e in good if any(c[0].endswith("is None") and c[1] for c in e.conds)]
+    if len(ms) == 1 and slicing:
+        r.ok(key, C.loc(f, ms[0].node), "slice count multiplied by d exactly when the index is sliced (not projected)")
+    else:
+        r.violation(key, f.loc, f"the slice count is not multiplied by the index dimension exactly once, under `project is None` "
+                    f"({[(e.kind, e.value, list(e.conds)) for e in ms][:2]})")
+    return r
+
+
+RULES = [rule_arith, rule_copy, rule_alias, rule_track, rule_staleread, rule_pre, rule_presource, rule_whole,
          rule_presurv, rule_pure, rule_rebuild, rule_multpair, rule_maxcount, rule_leaf]
